@@ -4,7 +4,7 @@
 ID=$1; SD=$2
 WT=/tmp/cv_$ID
 rm -rf $WT; git -C /repo worktree prune; git -C /repo worktree add --detach $WT HEAD -q || exit 2
-STD=-std=c++17; grep -q backmp11 $SD/demo.cpp && STD=-std=c++20
+STD=-std=c++17; grep -q "backmp11\|puml" $SD/demo.cpp && STD=-std=c++20
 LIBS=""; grep -q "boost/archive" $SD/demo.cpp && LIBS="-lboost_serialization"
 LOG=$SD/confirm.log; : > $LOG
 g++ $STD -O0 -w -I$WT/include -o $WT/demo_ok $SD/demo.cpp $LIBS >>$LOG 2>&1; $WT/demo_ok >>$LOG 2>&1; echo "demo on unpatched tree: exit $?" | tee -a $LOG
